@@ -103,8 +103,9 @@ theorem no_state_carried_across_groups :
 only statements that leave an iteration early are the two `continue`s of the kind test (template identification present
 and another template / absent and the content says another kind) — no `break`, no `return`, no `raise` in the loop body
 itself —, the result is appended to exactly under "no filter given or all filters matched", the loop has no `else:` clause,
-runs over `self._find_measurement_groups()` and is followed by `return sequences` only (nothing trims, reorders or
-deduplicates the answer).  This is what entitles the model to be a document-order FILTER over ALL groups
+runs over `self._find_measurement_groups()` and is followed by `return sequences` only; no statement between the assignment
+of the group list and the loop mentions that list (no in-place `reverse()` / `del …[1:]`), and the result list is assigned
+exactly once, `sequences = []` (nothing trims, reorders or deduplicates the answer).  This is what entitles the model to be a document-order FILTER over ALL groups
 (`query_is_document_order_filter`): an early exit after the first hit (tracking UIDs assumed unique, "first match wins")
 makes this theorem fail.  A trip-wire on a regenerated table in the sense of AGENT_GUIDE §3a; the behaviour itself is
 exercised by the `twins` stream of the correspondence (several groups passing one filter). -/
@@ -124,7 +125,9 @@ theorem every_group_is_visited :
       Gen.queryLoopFrame.contains (m, "groups", "self._find_measurement_groups()") &&
       Gen.queryLoopFrame.contains (m, "else", "no") &&
       Gen.queryLoopFrame.contains (m, "tail", "return sequences") &&
-      Gen.queryLoopFrame.contains (m, "other-result-calls", "")) = true := by
+      Gen.queryLoopFrame.contains (m, "other-result-calls", "") &&
+      Gen.queryLoopFrame.contains (m, "groups-touched-before-loop", "") &&
+      Gen.queryLoopFrame.contains (m, "result-assignments", "sequences = []")) = true := by
   decide +kernel
 
 /-- **The filter part of the three loop bodies is the skeleton the model implements** (table of every `matches.append(…)`
@@ -687,12 +690,19 @@ theorem exchanged_groups_answer (k : Kind) (f : Filters) (r : List Group) (i j :
   obtain ⟨_, h2', _⟩ := query_is_document_order_filter k _ f l' h'
   rw [h2', h2, getElem?_swap r i j hi hj p]
 
-/-- **Equivalent spellings.**  Code equality in the library is equality after normalisation (`norm`: the legacy SNOMED-RT
-identifier of a concept equals its SNOMED-CT identifier, C17).  A report whose concept names and coded values are respelled
-with equivalent codes (`norm (respell c) = norm c` for every code — e.g. a report written before 2019, or by a third party)
-answers every query exactly as the original, and so does a query whose filter values are respelled.  The `legacy-names`
-perturbation (metamorphic, random and systematic), the fixture stream on the repository's legacy-spelled report and the
-finding-site / finding-type filters in both spellings exercise this on the real queries. -/
+/-- **Equivalent spellings — a lemma about the DEFINITION `queryN`.**  `queryN norm k gs f := query k (gs.map (mapCodes norm))
+(f.mapCodes norm)` DEFINES "the library compares codes after a normalisation `norm`"; nothing regenerated stands behind that
+definition here (C17 proves, over definitions regenerated from pydicom, that code equality is equality of the key
+(value, scheme, VERSION) with ONLY the retired designator `SRT` mapped to SCT — `pydicom_eq_is_key_equality`; that file is
+not imported).  Given the definition, a report whose concept names and coded values are respelled with codes that `norm`
+identifies (`norm (respell c) = norm c` — for the library: SRT spellings of SNOMED concepts; NOT `SNM3` / `99SDM`
+spellings, NOT a value with another coding scheme version) answers every query exactly as the original, and so does a
+query whose filter values are respelled — map fusion.  Tie: the `legacy-names` perturbation (SRT; metamorphic, random and
+systematic, also after write / read), `versioned-names` (every concept name states a coding scheme version: the same
+concepts, answers unchanged — the library's name rule), `versioned-values` and `snm3-names` (answers change exactly as the
+documented rule says: evaluated by the harness on the construction parameters), the fixture stream on the repository's
+legacy-spelled report.  The harness hands the model names as value|scheme (SRT normalised, version dropped: names are
+matched in any version) and coded values as value|scheme[|version] (SRT normalised only). -/
 theorem respelled_report_answers_the_same (norm respell : String → String) (h : ∀ c, norm (respell c) = norm c) (k : Kind)
     (gs : List Group) (f : Filters) :
     queryN norm k (gs.map (Group.mapCodes respell)) f = queryN norm k gs f ∧
